@@ -78,6 +78,10 @@ def mkview(x):
     return {x: None, x + 10: None}.keys()
 
 
+def txtwrite(text):
+    return None
+
+
 def rec3(x, tag=None, k=0):
     """a consumer that insists on the extra arguments its sink was given"""
     if tag != "t" or k != 1:
@@ -140,7 +144,7 @@ def _record(x):
 
 
 FUNCS = dict((k, _hooked(v)) for k, v in dict(inc=inc, pair=pair, add=add, odd=odd, parity=parity, ident=ident, accrs=accrs,
-                                              nxt=nxt, tsum=tsum, record=_record, addk=addk, add3=add3, gtk=gtk, accw=accw, accn=accn, odd1=odd1, first=first, rec3=rec3, mkview=mkview).items())
+                                              nxt=nxt, tsum=tsum, record=_record, addk=addk, add3=add3, gtk=gtk, accw=accw, accn=accn, odd1=odd1, first=first, rec3=rec3, mkview=mkview, txtwrite=txtwrite).items())
 
 
 # ---- node step functions ---------------------------------------------------------------------
@@ -299,6 +303,7 @@ def step(spec, st, port, v, nports=1):
     if k == "collect":
         return st + (v,), []
     if k == "sinktxt":     # map(str).sink_to_textfile(f, end="|"): what is written, per element
+        FUNCS["txtwrite"](str(v.val) + "|")
         return st, [V(str(v.val) + "|", v.prov)]
     if k == "sinkf":       # a sink calling a user function; emits nothing
         if spec[1] == "rec3":           # sink(rec3, "t", k=1)
